@@ -211,6 +211,8 @@ def _plain_op(mod: nn.Module, st: Dict[str, Any], a: List[Any]) -> Any:
         return U.residual_split(a[0], st["tau"])
     if op == "getitem":
         return a[0][st["i"]]
+    if op == "chunk2":
+        return a[0].chunk(2, -1)
     if op == "u_residual_add":
         return U.residual_add(a[0], a[1], st["tau"])
     if op == "argmax_ids":
@@ -438,9 +440,10 @@ class Reference:
             return U.matmul(a[0], rhs, **ckw) if us else torch.matmul(a[0], rhs)
         if op in ("embedding", "nn_embedding", "uu_embedding"):
             w = getattr(mod, st["w"]) if op == "embedding" else sub(st["mod"]).weight
+            pad = None if op == "embedding" else sub(st["mod"]).padding_idx
             if us or op == "uu_embedding":
-                return U.embedding(a[0], w)
-            return F.embedding(a[0], w)
+                return U.embedding(a[0], w, pad)
+            return F.embedding(a[0], w, pad)
         if op == "conv1d":
             w = getattr(mod, st["w"])
             b = getattr(mod, st["b"]) if st.get("b") else None
